@@ -243,6 +243,49 @@ VP_HARNESS(h_restrict)
 static const char *const envs[13] = { NULL, "default", "none", "coretype+frequency", "coretype+frequency_strict", "coretype", "frequency",
                                       "frequency_max", "frequency_base", "forced_efficiency", "no_forced_efficiency", "bogus", "" };
 static const char *const fpool[3] = { "1000", "2000", "0" };
+/* restrict + re-ranking: the real body of hwloc_internal_cpukinds_restrict (copied out of the current cpukinds.c by the driver,
+ * restrict.inc, renamed *__vp) compiled against a CONTRACT of hwloc_internal_cpukinds_rank — what the rank harness decides
+ * for every valid table: no kind -> nothing, one kind -> efficiency 0, otherwise all -1 or 0..nr-1 by index. Asserted: after any
+ * restrict of a ranked table the efficiencies are again all -1 or 0..nr-1 (the real rank on symbolic cpusets composed with the
+ * entry-moving restrict exhausts the solver's memory). */
+#ifdef RESTRICT_COPY
+static unsigned vp_rank_calls;
+static int vp_rank_contract(struct hwloc_topology *t)
+{
+  vp_rank_calls++;
+  if (!t->nr_cpukinds) return 0;
+  if (t->nr_cpukinds == 1) { t->cpukinds[0].efficiency = 0; return 0; }
+  int unk = vp_in_bool();
+  for (unsigned i = 0; i < NK; i++) if (i < t->nr_cpukinds) t->cpukinds[i].efficiency = unk ? -1 : (int) i;
+  return 0;
+}
+#define hwloc_internal_cpukinds_rank vp_rank_contract
+#include "restrict.inc"
+#undef hwloc_internal_cpukinds_rank
+VP_HARNESS(h_restrict_rank)
+{
+  mk_state(0);
+  VP_ASSUME(n0 == NK);      /* stated bound: exactly NK kinds before the restrict (partition clauses: the restrict harness) */
+  /* pre-state: a table as ranking leaves it */
+  int unk = vp_in_bool();
+  for (unsigned i = 0; i < NK; i++) if (i < n0) KK[i].efficiency = (unk && n0 >= 2) ? -1 : (int) i;
+  unsigned long root = vp_in64();
+  ROOT.cpuset = bm(root);
+  vp_env = NULL;
+  unsigned ne = 0;
+  for (unsigned i = 0; i < NK; i++) if (i < n0 && (old_set[i] & root)) ne++;
+  VP_SYMBOLIC_PHASE(1);
+  hwloc_internal_cpukinds_restrict__vp(&T);
+  VP_CHECK(T.nr_cpukinds == ne, "restrict: exactly the kinds that keep a PU survive");
+  int allunk = 1, ident = 1;
+  for (unsigned i = 0; i < NK; i++) if (i < T.nr_cpukinds) { if (T.cpukinds[i].efficiency != -1) allunk = 0; if (T.cpukinds[i].efficiency != (int) i) ident = 0; }
+  if (T.nr_cpukinds >= 2) VP_CHECK(allunk || ident, "after restrict the efficiencies are all -1 or 0..nr-1 increasing with the kind index");
+  if (T.nr_cpukinds == 1) VP_CHECK(T.cpukinds[0].efficiency == 0 || (T.cpukinds[0].efficiency == -1 && ne == n0), "after restrict a single remaining kind has efficiency 0 (a permutation of 0..nr-1)");
+  VP_WITNESS_IF(n0 == NK && ne == 1 && !unk && (old_set[0] & root) == 0, "only the last kind survives");
+  VP_WITNESS_IF(n0 == NK && ne == NK, "nothing removed");
+}
+#endif
+
 VP_HARNESS(h_rank)
 {
   memset(&T, 0, sizeof T);
